@@ -157,3 +157,16 @@ def reused(tf, c, t=None):
         for key, v in keep.items():
             t.ndata[key][...] = v
     return tf
+
+
+def scribble(obj):
+    """overwrite a result in place (every column of a tree / table): a later call with the same input must not hand out, or depend on, this object's storage"""
+    if hasattr(obj, "ndata"):
+        cols = list(obj.ndata.values())
+    else:                                   # a pandas table
+        cols = [obj[k].values for k in obj.columns]
+    for a in cols:
+        try:
+            a[...] = -7 if a.dtype.kind in "iu" else -12345.5
+        except (ValueError, TypeError):     # read-only column: nothing to scribble
+            pass
